@@ -35,6 +35,7 @@ type Obligation struct {
 	Model   string
 	Query   string
 	Relaxed string
+	Sliced  string
 	Output  string
 }
 
@@ -478,11 +479,27 @@ func (f *Frame) assumeTypeFacts(st *State, v Value, t types.Type) {
 	}
 }
 
+var allocRankSeq int64
+
 func (f *Frame) allocRef(st *State, hint string) *Term {
 	r := fresh("new_"+hint, sortInt)
 	f.addHyp(tTrue(), tGt(r, st.alloc))
+	// direct facts (spare the solver the chain of allocation marks): above the entry mark, and pairwise distinct
+	// from every other object allocated during this verification run (distinct static ranks)
+	if f.root.entry != nil && f.root.entry.alloc != st.alloc {
+		f.addHyp(tTrue(), tGt(r, f.root.entry.alloc))
+	}
+	allocRankSeq++
+	f.addHyp(tTrue(), tEq(uf("alloc_rank", sortInt, r), tInt(allocRankSeq)))
 	st.alloc = r
 	return r
+}
+
+var globalBoxKeys map[*Term]string
+
+// refAddr: address of the object a reference term points to (private box heap when it is a captured local).
+func refAddr(x *Term, et types.Type) *Addr {
+	return &Addr{ref: x, base: et, typ: et, boxKey: globalBoxKeys[x]}
 }
 
 func toAddr(x Value, ptrType types.Type) *Addr {
@@ -491,7 +508,7 @@ func toAddr(x Value, ptrType types.Type) *Addr {
 		return x
 	case *Term:
 		et := derefType(ptrType)
-		return &Addr{ref: x, base: et, typ: et}
+		return &Addr{ref: x, base: et, typ: et, boxKey: globalBoxKeys[x]}
 	}
 	panic(fmt.Sprintf("toAddr %T", x))
 }
@@ -896,6 +913,10 @@ func (f *Frame) execAlloc(ins *ssa.Alloc, st *State) {
 	if f.escapes[ins] {
 		r := f.allocRef(st, ins.Comment)
 		a := &Addr{ref: r, base: et, typ: et}
+		if bk := staticBoxKey(ins); bk != "" {
+			a.boxKey = bk
+			f.eng.boxKeys[r] = bk
+		}
 		st.store(a, zeroOf(et))
 		f.vals[ins] = r
 		return
